@@ -476,11 +476,14 @@ def extract(repo: Path) -> dict:
     base = find_class(tree, "ArrayBase")
     base_tl = type_list_of(base, default=[], module=tree)
     base_inlined: set = set()
+    det_inlined: set = set()
 
     def nz(fn, module, scopes, params=None, keep=()):
         out = N.normalize(fn, module, scopes=scopes, keep=keep, params=params)
         if scopes and scopes[0] is base:
             base_inlined.update(out._inlined)          # helpers of ArrayBase whose body the tables now contain
+        if scopes and scopes[0].name == "Detector":
+            det_inlined.update(out._inlined)
         return out
 
     # the `array` setter with its private helpers (`_validate`, whatever it is split into) inlined:
@@ -649,6 +652,13 @@ def extract(repo: Path) -> dict:
         else:
             fail(fn, "MKID.phase setter shape not accepted")
     info["setters"] = setters
+    # a followed private helper of Detector must not be redefined by a detector class (virtual dispatch)
+    for rel, cname in (("pyxel/detectors/ccd/ccd.py", "CCD"), ("pyxel/detectors/cmos/cmos.py", "CMOS"),
+                       ("pyxel/detectors/mkid/mkid.py", "MKID"), ("pyxel/detectors/apd/apd.py", "APD")):
+        sub = find_class(parse(repo, rel), cname)
+        for n in sub.body:
+            if isinstance(n, ast.FunctionDef) and n.name in det_inlined and not N.is_message_only(n):
+                fail(n, f"{cname} redefines the helper {n.name} that Detector's methods were read through")
     return info
 
 
